@@ -223,6 +223,18 @@ const EXTRA: &[(&str, &str, &str)] = &[
     ("attr", "Clone", "compile_error!(\"user\");"),
     ("attr", "Clone", "compile_error!();"),
     ("attr", "Clone", "extern \"C\" {}"),
+    ("attr", "Clone", "std::thread_local! { static X: u8 = 0; }"),
+    ("attr", "Clone", "::a::b! {}"),
+    ("attr", "Clone", "a::b![1, 2];"),
+    ("attr", "Clone", "m!(x);"),
+    ("attr", "", "a::b::c! { struct X; }"),
+    ("attr", "Clone", "async fn f() {}"),
+    ("attr", "Clone", "unsafe trait Tr {}"),
+    ("attr", "Clone", "impl<T> Tr for T {}"),
+    ("attr", "Clone", "const _: () = ();"),
+    ("attr", "Clone", "static mut S: u8 = 0;"),
+    ("attr", "Clone", "type A<T> = Vec<T>;"),
+    ("attr", "Clone", "pub use a::{b, c as d, e::*};"),
     ("attr", "not a trait list at all ! $ # @", "struct X;"),
     ("attr", "not a trait list at all ! $ # @", "fn f() {}"),
     ("derive", "", "struct X;"),
@@ -327,6 +339,46 @@ pub fn directed() -> Vec<Request> {
             mode: Mode::Attr,
             attr: "Default".into(),
             item: format!("enum X {{ #[default({e})] A, #[default] B {{ #[default({e})] a: u8 }} }}"),
+        });
+    }
+    // impl grid: self type x right-hand side x Output (pairs and triples of header features)
+    let self_tys = [
+        "X", "&X", "&'a X", "&mut X", "dyn A + B", "(dyn A + B)", "&(dyn A + B)", "X<T>", "[X; 2]",
+        "(X, X)", "Box<dyn A + B>", "*const X", "dyn A + 'static", "impl A + B", "&&X",
+    ];
+    let rhs = [
+        "", "<Self>", "<&Self>", "<&'a Self>", "<&mut Self>", "<*const Self>", "<*mut Self>",
+        "<&dyn Fn() -> Self>", "<&fn() -> Self>", "<Box<Self>>", "<(Self, Self)>", "<[Self; 2]>", "<u8>",
+        "<&u8>", "<dyn A + B>", "<&&Self>", "<&'a mut [Self]>", "<*const dyn A>", "<fn(Self) -> Self>",
+    ];
+    let outputs = ["Self", "*const Self", "&'a Self", "Option<Self>", "u8", "dyn A + B", "&dyn Fn() -> Self"];
+    for st in self_tys {
+        for r in rhs {
+            for o in outputs {
+                out.push(Request {
+                    mode: Mode::Attr,
+                    attr: "Add, AddAssign".into(),
+                    item: format!("impl<'a, T: Into<*const Self>> Add{r} for {st} {{ type Output = {o}; }}"),
+                });
+            }
+            out.push(Request {
+                mode: Mode::Attr,
+                attr: "Sub".into(),
+                item: format!("impl<'a> SubAssign{r} for {st} where Self: 'a {{ fn sub_assign(&mut self, rhs: Self) {{}} }}"),
+            });
+        }
+    }
+    // every dictionary type as a field type, alone and next to a generic field, all traits
+    for ty in crate::gen::TYPES {
+        out.push(Request {
+            mode: Mode::Attr,
+            attr: TRAITS.join(", "),
+            item: format!("struct X<'a, T, const N: usize>({ty});"),
+        });
+        out.push(Request {
+            mode: Mode::Attr,
+            attr: "Ord, PartialOrd, Eq, PartialEq, Hash, Clone, Debug, Default, Copy".into(),
+            item: format!("enum X<'a, T, const N: usize> {{ A(T, {ty}), #[default] B {{ a: {ty} }} }}"),
         });
     }
     // normalise to the printed token form and drop what is not a valid request
